@@ -400,6 +400,118 @@ Proof.
   rewrite E0, (hc_R9_in h u _ 1), (hc_R9_in h u _ 7), (hc_R9_in h u _ 8) by (try reflexivity; lia). reflexivity.
 Qed.
 
+Lemma ent_rep_R9_inv (m : mem) h u c0 c1 c2 c3 c4 c5 c6 c7 c8 lo : (9 * u + 9 <= length h)%nat ->
+  ent_rep m (R9 h u [c0; c1; c2; c3; c4; c5; c6; c7; c8]) u lo ->
+  sown m c0 (ins lo) /\ sown m c1 (del lo) /\ c2 = VInt (Z.of_nat (pos lo)) /\ c3 = VInt (Z.of_nat (n_ins lo)) /\
+  c4 = VInt (Z.of_nat (n_del lo)) /\ (exists z, c5 = VInt z) /\ c6 = VInt (seq lo) /\ mark_cells m c7 c8 /\
+  (i31 (pos lo) /\ i31 (n_ins lo) /\ i31 (n_del lo) /\ i32 (seq lo)).
+Proof.
+  intros H [H0 H1 H2 H3 H4 H5 H6 H7 H8]. unfold mark_part in H7.
+  pose proof (hc_R9_in h u [c0; c1; c2; c3; c4; c5; c6; c7; c8] 0 H eq_refl ltac:(lia)) as E0. rewrite Nat.add_0_r in E0.
+  rewrite ?E0, ?(hc_R9_in h u _ 1), ?(hc_R9_in h u _ 2), ?(hc_R9_in h u _ 3), ?(hc_R9_in h u _ 4),
+    ?(hc_R9_in h u _ 5), ?(hc_R9_in h u _ 6), ?(hc_R9_in h u _ 7), ?(hc_R9_in h u _ 8) in * by (try reflexivity; lia).
+  cbn [nth] in *. unfold mark_cells. destruct H8 as (H8a & H8b & H8c & H8d). repeat (split; [assumption|]). assumption.
+Qed.
+Lemma mark_cells_keeps (m m' : mem) c7 c8 : mark_cells m c7 c8 -> keeps (ptr_block c7 ++ ptr_block c8) m m' -> mark_cells m' c7 c8.
+Proof.
+  intros [H|(bm & bo & -> & -> & H)] K; [left; exact H|]. right. exists bm, bo. split; [reflexivity|]. split; [reflexivity|].
+  apply (marr_keeps m m'); [exact H| |]; apply K; cbn; auto.
+Qed.
+
+(* the newest record (nine explicit cells) changes: the generic step of the append *)
+Lemma push_upd T (m m' : mem) bl (blk : block) bh (h0 : block) lb lo lo' (r r' : list val) :
+  T_frame T -> let u := length (hist lb) in urep T m bl blk bh (R9 h0 u r) (push lb lo) ->
+  (9 * u + 9 <= length h0)%nat -> length r = 9%nat -> length r' = 9%nat ->
+  nth_error m' bh = Some (R9 h0 u r') -> (length m <= length m')%nat ->
+  (forall b, (b < length m)%nat -> b <> bh -> ~ In b (ent_blocks (R9 h0 u r) u) -> nth_error m' b = nth_error m b) ->
+  ent_rep m' (R9 h0 u r') u lo' -> NoDup (ent_blocks (R9 h0 u r') u) ->
+  (forall b, In b (ent_blocks (R9 h0 u r') u) -> In b (ent_blocks (R9 h0 u r) u) \/ (length m <= b < length m')%nat) ->
+  urep T m' bl blk bh (R9 h0 u r') (push lb lo').
+Proof.
+  intros TF u R Hlen Lr Lr' Hh' Hl Hk E' Nd Hfr.
+  change (push lb lo') with (with_hist (push lb lo) (hist lb ++ [lo'])).
+  apply (urep_last T m m' bl blk bh (R9 h0 u r) (R9 h0 u r') (push lb lo) (hist lb) lo lo' TF R eq_refl); fold u; try assumption.
+  - rewrite !R9_length by lia. reflexivity.
+  - intros k Hk'. rewrite !hc_R9_out by assumption. reflexivity.
+Qed.
+
+(* what one step of the append does to the memory: the struct, the hist array, the record's own blocks and fresh blocks only *)
+Definition sframe (bl bh : nat) (m m' : mem) (B B' : list nat) : Prop :=
+  (length m <= length m')%nat /\
+  (forall b, (b < length m)%nat -> b <> bl -> b <> bh -> ~ In b B -> nth_error m' b = nth_error m b) /\
+  (forall b, In b B' -> In b B \/ (length m <= b < length m')%nat).
+Lemma sframe_refl bl bh m B : sframe bl bh m m B B.
+Proof. split; [lia|]. split; [reflexivity|]. intros b Hb. left. exact Hb. Qed.
+Lemma sframe_trans bl bh m m' m'' B B' B'' : sframe bl bh m m' B B' -> sframe bl bh m' m'' B' B'' -> sframe bl bh m m'' B B''.
+Proof.
+  intros (L1 & F1 & N1) (L2 & F2 & N2). split; [lia|]. split.
+  - intros b Hb N3 N4 N5. rewrite F2; [apply F1; assumption|lia|assumption|assumption|].
+    intro X. destruct (N1 b X) as [Y|Y]; [contradiction|lia].
+  - intros b Hb. destruct (N2 b Hb) as [Y|Y]; [|right; lia]. destruct (N1 b Y) as [Z|Z]; [left; exact Z|right; lia].
+Qed.
+
+(* the text argument of lbuf_edit: NULL, or a pointer into a block that holds exactly a C string, outside struct and hist array *)
+Definition bufarg (m : mem) (bl bh : nat) (v : val) (buf : option (list N)) : Prop :=
+  match buf with
+  | None => v = VInt 0
+  | Some t => exists bb s o, v = VPtr bb (Z.of_nat o) /\ str_at m bb s /\ nonul s /\ (o <= length s)%nat /\
+                             Z.of_nat (length s) <= 2147483647 /\ t = skipn o s /\ bb <> bl /\ bb <> bh
+  end.
+Lemma bufarg_frame (m m' : mem) bl bh v buf : bufarg m bl bh v buf ->
+  (forall b, (b < length m)%nat -> b <> bl -> b <> bh -> nth_error m' b = nth_error m b) -> bufarg m' bl bh v buf.
+Proof.
+  destruct buf as [t|]; [|auto]. intros (bb & s & o & -> & Hs & Hn & Ho & Hm & -> & N1 & N2) K.
+  exists bb, s, o. repeat split; try assumption. unfold str_at in *. rewrite K; [exact Hs|apply nth_error_Some; congruence|exact N1|exact N2].
+Qed.
+
+(* the same step when the memory was only extended before the hist array is stored into *)
+Lemma push_cells T (m m1 : mem) bl (blk : block) bh (h0 : block) lb lo lo' (r r' : list val) :
+  T_frame T -> let u := length (hist lb) in let m' := upd m1 bh (R9 h0 u r') in
+  urep T m bl blk bh (R9 h0 u r) (push lb lo) -> (9 * u + 9 <= length h0)%nat -> length r = 9%nat -> length r' = 9%nat ->
+  (length m <= length m1)%nat -> (forall b, (b < length m)%nat -> nth_error m1 b = nth_error m b) ->
+  (keeps (ent_blocks (R9 h0 u r) u) m m' -> ent_rep m' (R9 h0 u r') u lo') ->
+  NoDup (ent_blocks (R9 h0 u r') u) ->
+  (forall b, In b (ent_blocks (R9 h0 u r') u) -> In b (ent_blocks (R9 h0 u r) u) \/ (length m <= b < length m1)%nat) ->
+  urep T m' bl blk bh (R9 h0 u r') (push lb lo') /\ sframe bl bh m m' (ent_blocks (R9 h0 u r) u) (ent_blocks (R9 h0 u r') u).
+Proof.
+  intros TF u m' R Hlen Lr Lr' Hl Hk1 HE Nd Hfr. pose proof R as [Hb L I Cn Rn Cq Ch Csz Cnn Cu Cz Cl Rg Hh Hl0 He Ho Ht].
+  assert (Hbh : (bh < length m)%nat) by (apply nth_error_Some; congruence).
+  assert (Hbh1 : (bh < length m1)%nat) by lia.
+  assert (Lm' : length m' = length m1) by (unfold m'; apply upd_length; exact Hbh1).
+  assert (Hu : (u < length (hist (push lb lo)))%nat) by (cbn [push hist]; rewrite app_length; cbn [length]; fold u; lia).
+  pose proof (He u Hu) as E. cbn [push hist] in E. unfold u in E at 2. rewrite app_nth2 in E by lia. rewrite Nat.sub_diag in E. cbn [nth] in E.
+  assert (K1 : forall b, (b < length m)%nat -> b <> bh -> nth_error m' b = nth_error m b).
+  { intros b Hb0 Nb. unfold m'. rewrite mem_upd_other by (try lia; exact Nb). apply Hk1. exact Hb0. }
+  assert (KE : keeps (ent_blocks (R9 h0 u r) u) m m').
+  { intros b Hb0. apply K1; [apply (ent_blocks_live m (R9 h0 u r) u lo b E Hb0)|].
+    intro X; subst. unfold owned in Ho. inversion Ho as [|? ? _ Ho']; subst. inversion Ho' as [|? ? Hn _]; subst. apply Hn.
+    cbn [push hist]. rewrite app_length. cbn [length]. apply (in_log_blocks _ u); [fold u; lia|exact Hb0]. }
+  split.
+  - apply (push_upd T m m' bl blk bh h0 lb lo lo' r r' TF R Hlen Lr Lr').
+    + unfold m'. apply mem_upd_same. exact Hbh1.
+    + lia.
+    + intros b Hb0 Nb _. apply K1; assumption.
+    + apply HE. exact KE.
+    + exact Nd.
+    + intros b Hb0. rewrite Lm'. apply Hfr. exact Hb0.
+  - split; [lia|]. split; [intros b Hb0 _ Nb _; apply K1; assumption|]. intros b Hb0. rewrite Lm'. apply Hfr. exact Hb0.
+Qed.
+(* the record's blocks are pairwise distinct *)
+Lemma rec_nodup T (m : mem) bl (blk : block) bh (h0 : block) lb lo (r : list val) : let u := length (hist lb) in
+  urep T m bl blk bh (R9 h0 u r) (push lb lo) -> NoDup (ent_blocks (R9 h0 u r) u).
+Proof.
+  intros u R. pose proof (u_own _ _ _ _ _ _ _ R) as Ho. unfold owned in Ho. cbn [push hist] in Ho. rewrite app_length in Ho. cbn [length] in Ho.
+  replace (length (hist lb) + 1)%nat with (S u) in Ho by (unfold u; lia).
+  rewrite log_blocks_snoc in Ho. inversion Ho as [|? ? _ Ho']; subst. inversion Ho' as [|? ? _ Ho'']; subst.
+  apply NoDup_app_iff' in Ho''. tauto.
+Qed.
+Lemma rec_ent T (m : mem) bl (blk : block) bh (h0 : block) lb lo (r : list val) : let u := length (hist lb) in
+  urep T m bl blk bh (R9 h0 u r) (push lb lo) -> ent_rep m (R9 h0 u r) u lo.
+Proof.
+  intros u R. assert (Hu : (u < length (hist (push lb lo)))%nat) by (cbn [push hist]; rewrite app_length; cbn [length]; fold u; lia).
+  pose proof (u_ents _ _ _ _ _ _ _ R u Hu) as E. cbn [push hist] in E. unfold u in E at 2. rewrite app_nth2 in E by lia. rewrite Nat.sub_diag in E. exact E.
+Qed.
+
 Lemma upd_comm {A} (m : list A) : forall a b x y, a <> b -> (a < length m)%nat -> (b < length m)%nat ->
   upd (upd m a x) b y = upd (upd m b y) a x.
 Proof.
@@ -701,5 +813,100 @@ Section Opt.
         * left. split; reflexivity.
         * unfold i31, i32 in *. repeat split; try lia; cbn; lia.
       + unfold hblkE. rewrite ent_blocks_R9 by exact Hlen. reflexivity.
+  Qed.
+  (* ---- lo->del = n_del ? lbuf_cp(lb, pos, pos + n_del) : NULL *)
+  (* the oracle for lbuf_cp: a fresh block that reads the model's copy of the lines, every older block untouched *)
+  Definition cp_oracle (bl : nat) : Prop := forall (m : mem) (blk : block) bh (hblk : block) lb b e,
+    urep T m bl blk bh hblk lb -> i31 e ->
+    exists bd (m' : mem), ext X_lbuf_cp [VPtr bl 0; VInt (Z.of_nat b); VInt (Z.of_nat e)] m = Ok (VPtr bd 0, m') /\
+      (length m <= bd < length m')%nat /\ (forall b', (b' < length m)%nat -> nth_error m' b' = nth_error m b') /\
+      cstr_from m' bd 0 (lbuf_cp lb b e) /\ nonul (lbuf_cp lb b e).
+  Definition set_del (lo : lopt) (x : option (list N)) : lopt :=
+    {| pos := pos lo; n_ins := n_ins lo; n_del := n_del lo; del := x; ins := ins lo; seq := seq lo |}.
+
+  Lemma opt_del_ok (m : mem) bl (blk : block) bh (h0 : block) lb lo (bufv : val) p nd c0 c2 c3 c4 c5 c6 c7 c8 (l5 l6 l7 : val) rest :
+    cp_oracle bl -> let u := length (hist lb) in
+    urep T m bl blk bh (R9 h0 u [c0; VInt 0; c2; c3; c4; c5; c6; c7; c8]) (push lb lo) -> (9 * u + 9 <= length h0)%nat -> i31 (p + nd) ->
+    exists (m' : mem) c1,
+      exec cx fuel (SSeq sF rest) (mkst [VPtr bl 0; bufv; VInt (Z.of_nat p); VInt (Z.of_nat nd); VPtr bh (Z.of_nat (9 * u)); l5; l6; l7] m)
+      = exec cx fuel rest (mkst [VPtr bl 0; bufv; VInt (Z.of_nat p); VInt (Z.of_nat nd); VPtr bh (Z.of_nat (9 * u)); l5; l6; l7] m') /\
+      urep T m' bl blk bh (R9 h0 u [c0; c1; c2; c3; c4; c5; c6; c7; c8])
+           (push lb (set_del lo (if Nat.eqb nd 0 then None else Some (lbuf_cp lb p (p + nd))))) /\
+      sframe bl bh m m' (ent_blocks (R9 h0 u [c0; VInt 0; c2; c3; c4; c5; c6; c7; c8]) u) (ent_blocks (R9 h0 u [c0; c1; c2; c3; c4; c5; c6; c7; c8]) u).
+  Proof.
+    intros HC u R Hlen Hpn. pose proof R as [Hb L I Cn Rn Cq Ch Csz Cnn Cu Cz Cl Rg Hh Hl He Ho Ht].
+    assert (Hbh : (bh < length m)%nat) by (apply nth_error_Some; congruence).
+    set (r := [c0; VInt 0; c2; c3; c4; c5; c6; c7; c8]) in *.
+    assert (Hu : (u < length (hist (push lb lo)))%nat) by (cbn [push hist]; rewrite app_length; cbn [length]; fold u; lia).
+    pose proof (He u Hu) as E. cbn [push hist] in E. unfold u in E at 2. rewrite app_nth2 in E by lia. rewrite Nat.sub_diag in E. cbn [nth] in E.
+    destruct (ent_rep_R9_inv m h0 u _ _ _ _ _ _ _ _ _ lo Hlen E) as (S0 & S1 & E2 & E3 & E4 & E5 & E6 & E7 & E8).
+    unfold sF at 1, opt_t6, opt_t5, opt_t4, opt_t3, opt_t2, opt_t1, opt_rest3, opt_rest2, opt_rest1, opt_body; cbn [fn_body cf_lbuf_opt].
+    destruct nd as [|nd'].
+    - (* nothing deleted: NULL *)
+      exists m, (VInt 0). split.
+      + xstep. change (Z.of_nat 0 =? 0) with true. xstep.
+        rewrite (fld_store m bh (R9 h0 u r) (9 * u + 1)) by (try exact Hh; try lia; rewrite R9_length by (cbn [length]; lia); lia). xstep.
+        rewrite upd_R9 by (try reflexivity; lia). unfold r. cbn [upd firstn skipn app]. fold r. rewrite (upd_self m bh _ Hh). reflexivity.
+      + split; [|apply sframe_refl]. cbn [Nat.eqb].
+        assert (X : set_del lo None = lo -> True) by auto.
+        apply (push_upd T m m bl blk bh h0 lb lo (set_del lo None) r r TF R Hlen eq_refl eq_refl Hh (le_n _)); try reflexivity.
+        * apply ent_rep_R9; cbn [set_del ins del pos n_ins n_del seq sown]; try assumption. reflexivity.
+        * unfold owned in Ho. cbn [push hist] in Ho. rewrite app_length in Ho. cbn [length] in Ho. replace (length (hist lb) + 1)%nat with (S u) in Ho by (unfold u; lia).
+          rewrite log_blocks_snoc in Ho. inversion Ho as [|? ? _ Ho']; subst. inversion Ho' as [|? ? _ Ho'']; subst.
+          apply NoDup_app_iff' in Ho''. tauto.
+        * intros b Hb0. left. exact Hb0.
+    - (* the deleted lines are copied by lbuf_cp (oracle) *)
+      set (nd := S nd') in *.
+      destruct (HC m blk bh (R9 h0 u r) (push lb lo) p (p + nd)%nat R Hpn) as (bd & m1 & Hext & Hbd & Hk1 & Hcs & Hnn).
+      change (lbuf_cp (push lb lo) p (p + nd)) with (lbuf_cp lb p (p + nd)) in Hcs, Hnn.
+      set (r' := [c0; VPtr bd 0; c2; c3; c4; c5; c6; c7; c8]).
+      assert (Hh1 : nth_error m1 bh = Some (R9 h0 u r)) by (rewrite Hk1 by exact Hbh; exact Hh).
+      assert (Hbh1 : (bh < length m1)%nat) by lia.
+      exists (upd m1 bh (R9 h0 u r')), (VPtr bd 0). split; [|split].
+      + xstep. replace (Z.of_nat nd =? 0) with false by (symmetry; apply Z.eqb_neq; unfold nd; lia). xstep.
+        rewrite chk_I32 by (unfold i31 in *; lia). xstep. replace (Z.of_nat p + Z.of_nat nd) with (Z.of_nat (p + nd)) by lia.
+        unfold cx at 1. rewrite callx_S, x_lbuf_cp_none, Hext. xstep.
+        rewrite (fld_store m1 bh (R9 h0 u r) (9 * u + 1)) by (try exact Hh1; try lia; rewrite R9_length by (cbn [length]; lia); lia). xstep.
+        rewrite upd_R9 by (try reflexivity; lia). unfold r. cbn [upd firstn skipn app]. reflexivity.
+      + cbn [Nat.eqb]. fold r'.
+        assert (Hnb : ~ In bd (ent_blocks (R9 h0 u r) u)).
+        { intro X. assert (bd < length m)%nat; [|lia]. apply (ent_blocks_live m (R9 h0 u r) u lo bd E X). }
+        assert (K1 : forall b, (b < length m)%nat -> b <> bh -> nth_error (upd m1 bh (R9 h0 u r')) b = nth_error m b).
+        { intros b Hb0 Nb. rewrite mem_upd_other by (try lia; exact Nb). apply Hk1. exact Hb0. }
+        apply (push_upd T m (upd m1 bh (R9 h0 u r')) bl blk bh h0 lb lo _ r r' TF R Hlen eq_refl eq_refl).
+        * apply mem_upd_same. exact Hbh1.
+        * rewrite upd_length by exact Hbh1. lia.
+        * intros b Hb0 Nb _. apply K1; assumption.
+        * assert (KE : keeps (ent_blocks (R9 h0 u r) u) m (upd m1 bh (R9 h0 u r'))).
+          { intros b Hb0. apply K1; [apply (ent_blocks_live m (R9 h0 u r) u lo b E Hb0)|].
+            intro X; subst. unfold owned in Ho. inversion Ho as [|? ? _ Ho']; subst. inversion Ho' as [|? ? Hn _]; subst. apply Hn.
+            cbn [push hist]. rewrite app_length. cbn [length]. apply (in_log_blocks _ u); [fold u; lia|exact Hb0]. }
+          unfold r in KE. rewrite ent_blocks_R9 in KE by exact Hlen.
+          unfold r'. apply ent_rep_R9; cbn [set_del ins del pos n_ins n_del seq]; try assumption.
+          -- apply (sown_keeps m _ _ _ S0). intros b Hb0. apply KE. apply in_or_app. left. exact Hb0.
+          -- cbn [sown]. split; [exact Hnn|]. exists bd. split; [reflexivity|].
+             apply (cstr_from_keeps m1); [exact Hcs|]. apply mem_upd_other; [exact Hbh1|lia].
+          -- apply (mark_cells_keeps m _ _ _ E7). intros b Hb0. apply KE. apply in_or_app. right. apply in_or_app. right. exact Hb0.
+        * unfold r'. rewrite ent_blocks_R9 by exact Hlen. cbn [ptr_block app].
+          unfold r in Hnb. rewrite ent_blocks_R9 in Hnb by exact Hlen. cbn [ptr_block app] in Hnb.
+          assert (Nd0 : NoDup (ptr_block c0 ++ ptr_block c7 ++ ptr_block c8)).
+          { unfold owned in Ho. cbn [push hist] in Ho. rewrite app_length in Ho. cbn [length] in Ho. replace (length (hist lb) + 1)%nat with (S u) in Ho by (unfold u; lia).
+            rewrite log_blocks_snoc in Ho. inversion Ho as [|? ? _ Ho']; subst. inversion Ho' as [|? ? _ Ho'']; subst.
+            apply NoDup_app_iff' in Ho''. destruct Ho'' as (_ & Ho3 & _). unfold r in Ho3. rewrite ent_blocks_R9 in Ho3 by exact Hlen. exact Ho3. }
+          apply NoDup_app_iff' in Nd0. destruct Nd0 as (Na & Nb & Nc). apply NoDup_app_iff'. split; [exact Na|]. split.
+          -- constructor; [|exact Nb]. intro X. apply Hnb. apply in_or_app. right. exact X.
+          -- intros x Hx [<-|Hx']; [apply Hnb; apply in_or_app; left; exact Hx|apply (Nc x Hx Hx')].
+        * intros b Hb0. unfold r' in Hb0. rewrite ent_blocks_R9 in Hb0 by exact Hlen. unfold r. rewrite ent_blocks_R9 by exact Hlen.
+          cbn [ptr_block app] in *. apply in_app_or in Hb0. destruct Hb0 as [X|[<-|X]].
+          -- left. apply in_or_app. left. exact X.
+          -- right. rewrite upd_length by exact Hbh1. lia.
+          -- left. apply in_or_app. right. exact X.
+      + split; [rewrite upd_length by exact Hbh1; lia|]. split.
+        * intros b Hb0 _ Nb _. rewrite mem_upd_other by (try lia; exact Nb). apply Hk1. exact Hb0.
+        * intros b Hb0. fold r' in Hb0. unfold r' in Hb0. rewrite ent_blocks_R9 in Hb0 by exact Hlen. unfold r. rewrite ent_blocks_R9 by exact Hlen.
+          cbn [ptr_block app] in *. apply in_app_or in Hb0. destruct Hb0 as [X|[<-|X]].
+          -- left. apply in_or_app. left. exact X.
+          -- right. rewrite upd_length by exact Hbh1. lia.
+          -- left. apply in_or_app. right. exact X.
   Qed.
 End Opt.
